@@ -21,9 +21,20 @@ structure Inv (c : Ctx) (s : Store) (chain : List Block) : Prop where
   sync : ∀ h, AMap.get s.sync h = syncOf chain h
   syncedTo : s.syncedTo + 1 = chain.length
 
-/-- `Inv` plus the address records (first-use heights): preserved by connecting blocks -/
-structure InvFull (c : Ctx) (s : Store) (chain : List Block) : Prop extends Inv c s chain where
-  addrs : ∀ k, AMap.get s.addrs k = (bookOf c.p c.own chain).addrs k
+/-- the books of a chain started from an address table `a0` (the records of the addresses issued so far,
+    `some 0` = issued and unused); every other table is that of `bookOf` (`booksFrom_eqM`) -/
+def booksFrom (p : Params) (own : Own) (a0 : Wid × Bool × Addr → Option Nat) (chain : List Block) : Book :=
+  (occs chain).foldl (applyOcc p own) { addrs := a0 }
+
+theorem booksFrom_eqM (p : Params) (own : Own) (a0 : Wid × Bool × Addr → Option Nat) (chain : List Block) :
+    EqM (booksFrom p own a0 chain) (bookOf p own chain) :=
+  foldOcc_eqM _ _ _ (eqM_withAddrs ({} : Book) a0).symm
+
+/-- `Inv` plus the address records (first-use heights), relative to the table `a0` of issued addresses:
+    preserved by connecting blocks (`connect_sound_full`); NOT by rollback (see `Inv`) -/
+structure InvFull (c : Ctx) (s : Store) (a0 : Wid × Bool × Addr → Option Nat) (chain : List Block) : Prop
+    extends Inv c s chain where
+  addrs : ∀ k, AMap.get s.addrs k = (booksFrom c.p c.own a0 chain).addrs k
 
 theorem syncOf_snoc (chain : List Block) (b : Block) (k : Nat) :
     syncOf (chain ++ [b]) k = if chain.length = k then some b.id else syncOf chain k := by
